@@ -169,7 +169,22 @@ pub fn run_live(rep: &mut Report, targets: u64, per_target: u64) {
                 let rsp = if rng.chance(3, 4) { s.stack_base + rng.below(s.stack_len) } else { rng.next() >> 18 };
                 let rip = if rng.chance(3, 4) { exa + rng.below(2 * PAGE) } else { rng.next() >> 18 };
                 let walking = if rng.chance(1, 4) { Some(rng.usize_below(45)) } else { None };
-                o.crash = Some(random_crash(&mut rng, blamed, rsp, rip, walking));
+                let mut c = random_crash(&mut rng, blamed, rsp, rip, walking);
+                // the thread id recorded INSIDE the supplied context need not be the blamed thread's
+                // (a namespace-local id, the id of whichever thread captured the context, the
+                // process id): the caller's blamed thread decides
+                if rng.chance(1, 3) {
+                    c.tid = match rng.below(4) {
+                        0 => t.pid,
+                        1 => t.manifest.tids[b.sentinels[rng.usize_below(n)].index],
+                        2 => 1,
+                        _ => blamed.wrapping_add(7),
+                    };
+                    if c.tid != blamed {
+                        rep.count("crash_contexts_whose_own_tid_is_not_the_blamed_thread", 1);
+                    }
+                }
+                o.crash = Some(c);
             }
             t.settle();
             let (out, _) = {
@@ -275,5 +290,6 @@ pub fn run(rep: &mut Report, thorough: bool) {
     run_live(rep, t, p);
     rep.require("direct_contexts", 1000);
     rep.require("crash_contexts_compared", 10);
+    rep.require("crash_contexts_whose_own_tid_is_not_the_blamed_thread", 1);
     rep.require("dump_requested_records_compared", 5);
 }
